@@ -9,6 +9,7 @@ import (
 	"sort"
 	"strings"
 
+	"golang.org/x/tools/go/callgraph"
 	"golang.org/x/tools/go/ssa"
 )
 
@@ -158,7 +159,7 @@ var rulePanicP1 = &Rule{
 			}
 		}
 		c.Stats["must_compile_sites"] = n
-		obs = append(obs, floor("PANIC/P1-must-compile", "MustCompile sites", n, 10))
+		obs = append(obs, floor("PANIC/P1-must-compile", "MustCompile sites", n, 8))
 		return obs
 	},
 }
@@ -264,6 +265,30 @@ func (c *Ctx) RecoverSites() []*recoverSite {
 	return out
 }
 
+// reviewedRecoverHandlers: hazards without a known failing input (frozen by reading + reason).
+var reviewedRecoverHandlers = map[string]string{
+	"PANIC/P3:check/annotation/annotateparser.ParserLine:single-value-assertion": "a foreign payload would re-panic inside the deferred function, but no runtime fault is known inside the recovered region on this tree (every slice/index in annotatelexer is length-guarded; 20 minutes of coverage-guided fuzzing of parserOneState at design time found none). Reported as a hazard, not as a defect.",
+}
+
+// reportsErrors: the function hands diagnostics to its caller (a result of type error or a slice of
+// a struct type whose name ends in Error / Err).
+func reportsErrors(f *ssa.Function) bool {
+	res := f.Signature.Results()
+	for i := 0; i < res.Len(); i++ {
+		t := res.At(i).Type()
+		if types.Identical(t, types.Universe.Lookup("error").Type()) {
+			return true
+		}
+		if sl, ok := t.Underlying().(*types.Slice); ok {
+			n := namedName(sl.Elem())
+			if strings.HasSuffix(n, "Error") || strings.HasSuffix(n, "Err") {
+				return true
+			}
+		}
+	}
+	return false
+}
+
 var rulePanicP3 = &Rule{
 	Name:    "PANIC/P3-recover-handler",
 	NeedSSA: true,
@@ -273,13 +298,18 @@ var rulePanicP3 = &Rule{
 		sites := c.RecoverSites()
 		for _, rs := range sites {
 			base := "PANIC/P3:" + fnKey(rs.Outer)
-			if len(rs.SingleAssert) > 0 {
+			if why, ok := reviewedRecoverHandlers[base+":single-value-assertion"]; ok && len(rs.SingleAssert) > 0 {
+				obs = append(obs, Ob{Key: base + ":single-value-assertion", Site: c.Pos(rs.SingleAssert[0].Pos()), Verdict: OK, Note: "hazard, reviewed: " + why})
+			} else if len(rs.SingleAssert) > 0 {
 				obs = append(obs, Ob{Key: base + ":single-value-assertion", Site: c.Pos(rs.SingleAssert[0].Pos()), Verdict: VIOLATION,
 					Note: fmt.Sprintf("recovered value asserted to %s without comma-ok: any other panic payload (nil dereference, index out of range) re-panics inside the deferred function", rs.SingleAssert[0].AssertedType)})
 			} else {
 				obs = append(obs, Ob{Key: base + ":single-value-assertion", Site: c.Pos(rs.Defer.Pos()), Verdict: OK})
 			}
-			if !rs.Records {
+			if !rs.Records && !reportsErrors(rs.Outer) {
+				obs = append(obs, Ob{Key: base + ":swallow-all", Site: c.Pos(rs.Defer.Pos()), Verdict: OK,
+					Note: "handler discards the payload, but the function has no diagnostics channel (no error / error-list result): a fault yields 'no answer' for one query, not a file silently reported clean"})
+			} else if !rs.Records {
 				obs = append(obs, Ob{Key: base + ":swallow-all", Site: c.Pos(rs.Defer.Pos()), Verdict: VIOLATION,
 					Note: "deferred recover() neither discriminates the payload type nor records it: an internal fault (nil dereference, index out of range) is silently converted into an ordinary result"})
 			} else {
@@ -327,16 +357,120 @@ func payloadType(p *ssa.Panic) types.Type {
 	return v.Type()
 }
 
+// reviewedAssertionPanics: explicit panics with an untyped (string) payload — defensive assertions
+// about the consistency of analysis state. Whether their condition can hold is a fact about
+// runtime values; each was read. A NEW reachable one is reported.
+var reviewedAssertionPanics = map[string]string{
+	"(*check/analysis.Analysis).getFirstFileResult": "asserts that the file being analysed is in the first-pass map; files are only analysed after insertion and removal happens under the request lock between analyses",
+	"(*check/analysis.Analysis).GetReferFileResult": "asserts AnalysisFileMap[k].Name == k; the only insert stores under the result's own Name",
+}
+
+// reachSites is reach() with a per-call-site filter (dead sites are not followed).
+func reachSites(g *callgraph.Graph, roots []*ssa.Function, stop func(*ssa.Function) bool, deadSite func(ssa.CallInstruction) bool) (map[*ssa.Function]*ssa.Function, map[*ssa.Function]bool) {
+	parent := map[*ssa.Function]*ssa.Function{}
+	seen := map[*ssa.Function]bool{}
+	var q []*ssa.Function
+	for _, r := range roots {
+		if r != nil && !seen[r] {
+			seen[r] = true
+			parent[r] = nil
+			q = append(q, r)
+		}
+	}
+	for len(q) > 0 {
+		f := q[0]
+		q = q[1:]
+		if stop != nil && stop(f) {
+			continue
+		}
+		n := g.Nodes[f]
+		if n == nil {
+			continue
+		}
+		type oe struct {
+			f *ssa.Function
+		}
+		var outs []*ssa.Function
+		for _, e := range n.Out {
+			if deadSite != nil && e.Site != nil && deadSite(e.Site) {
+				continue
+			}
+			outs = append(outs, e.Callee.Func)
+		}
+		sort.Slice(outs, func(i, j int) bool { return fnKey(outs[i]) < fnKey(outs[j]) })
+		for _, cf := range outs {
+			if !seen[cf] {
+				seen[cf] = true
+				parent[cf] = f
+				q = append(q, cf)
+			}
+		}
+	}
+	return parent, seen
+}
+
+// lexerDeadSites: call sites inside the two lexers that the LEX abstract interpretation proves
+// unreachable in every context (e.g. `if !l.aheadToken.valid { l.ErrorPrint(...) }` right after
+// lookAheardToken(), which always leaves aheadToken.valid == true).
+func (c *Ctx) lexerDeadSites() (func(ssa.CallInstruction) bool, int, error) {
+	live := map[ssa.Instruction]bool{}
+	methods := map[*ssa.Function]*lexEngine{}
+	for _, lx := range [][2]string{{lexerPkg, "Lexer"}, {annLexPkg, "AnnotateLexer"}} {
+		e, err := newLexEngine(c, lx[0], lx[1])
+		if err != nil {
+			return nil, 0, err
+		}
+		e.noReviewed = true
+		e.solve()
+		for _, ed := range e.edges {
+			live[ed.site] = true
+		}
+		for _, f := range c.ModFns() {
+			if e.isMethod(f) {
+				methods[f] = e
+			}
+		}
+	}
+	nDead := 0
+	for f, e := range methods {
+		for _, b := range f.Blocks {
+			for _, ins := range b.Instrs {
+				if call, ok := ins.(ssa.CallInstruction); ok {
+					if sc := call.Common().StaticCallee(); sc != nil && e.isMethod(sc) && sc.Name() != "next" && !live[ins] {
+						nDead++
+					}
+				}
+			}
+		}
+	}
+	return func(site ssa.CallInstruction) bool {
+		e := methods[site.Parent()]
+		if e == nil {
+			return false
+		}
+		sc := site.Common().StaticCallee()
+		if sc == nil || !e.isMethod(sc) || sc.Name() == "next" {
+			return false
+		}
+		return !live[site.(ssa.Instruction)]
+	}, nDead, nil
+}
+
 var rulePanicP2 = &Rule{
 	Name:    "PANIC/P2-explicit-panic-confined",
 	NeedSSA: true,
-	Text:    "each explicit panic(x) in module code is either unreachable from every entry point (handlers, goroutine bodies, main) without crossing a function whose entry installs a deferred recover() that accepts x's type, or it is reported: jrpc2 and the worker goroutines have no recover, so an unconfined panic kills the server",
+	Text:    "each explicit panic(x) whose payload is a named module type (panic used as control flow: TooManyErr, ParseAnnotateErr) is unreachable from every entry point (handlers, goroutine bodies, main) except through a function whose entry installs a deferred recover() accepting that type — call sites proven dead by the lexer fact analysis are not followed; explicit panics with an untyped payload (assertions) that are reachable must be in the reviewed table. jrpc2 and the worker goroutines have no recover, so an unconfined panic kills the server",
 	Run: func(c *Ctx) []Ob {
 		var obs []Ob
 		roots, err := c.entryRoots()
 		if err != nil {
 			return []Ob{{Key: "PANIC/P2:slots", Verdict: UNDECIDED, Note: err.Error()}}
 		}
+		dead, nDead, err := c.lexerDeadSites()
+		if err != nil {
+			return []Ob{{Key: "PANIC/P2:slots", Verdict: UNDECIDED, Note: err.Error()}}
+		}
+		c.Stats["lexer_call_sites_proven_dead"] = nDead
 		sites := c.RecoverSites()
 		g := c.VTA()
 		n := 0
@@ -345,18 +479,14 @@ var rulePanicP2 = &Rule{
 			for _, b := range f.Blocks {
 				for _, ins := range b.Instrs {
 					p, ok := ins.(*ssa.Panic)
-					if !ok {
-						continue
-					}
-					// compiler-generated panics in synthetic code are not source panics
-					if !p.Pos().IsValid() {
+					if !ok || !p.Pos().IsValid() {
 						continue
 					}
 					n++
 					ord++
 					pt := payloadType(p)
-					key := fmt.Sprintf("PANIC/P2:%s:panic(%s)#%d", fnKey(f), types.TypeString(pt, func(p *types.Package) string { return p.Name() }), ord)
-					// recoverers that accept this payload
+					ptName := types.TypeString(pt, func(p *types.Package) string { return p.Name() })
+					key := fmt.Sprintf("PANIC/P2:%s:panic(%s)#%d", fnKey(f), ptName, ord)
 					accept := map[*ssa.Function]bool{}
 					for _, rs := range sites {
 						if !rs.AtEntry {
@@ -372,18 +502,29 @@ var rulePanicP2 = &Rule{
 							accept[rs.Outer] = true
 						}
 					}
-					parent, seen := reach(g, roots, func(x *ssa.Function) bool { return accept[x] })
-					if seen[f] && !accept[f] {
+					parent, seen := reachSites(g, roots, func(x *ssa.Function) bool { return accept[x] }, dead)
+					reachable := seen[f] && !accept[f]
+					sentinel := namedOf(pt) != nil && namedOf(pt).Obj().Pkg() != nil && strings.HasPrefix(namedOf(pt).Obj().Pkg().Path(), modPath)
+					switch {
+					case !reachable:
+						obs = append(obs, Ob{Key: key, Site: c.Pos(p.Pos()), Verdict: OK, Note: "every live path from an entry point crosses a recover() that accepts " + ptName})
+					case sentinel:
 						obs = append(obs, Ob{Key: key, Site: c.Pos(p.Pos()), Verdict: VIOLATION,
-							Note: "explicit panic reachable from an entry point with no accepting recover() on the path", Path: pathTo(parent, f)})
-					} else {
-						obs = append(obs, Ob{Key: key, Site: c.Pos(p.Pos()), Verdict: OK, Note: "every path from an entry point crosses an accepting recover"})
+							Note: "control-flow panic reachable from an entry point with no accepting recover() on the path", Path: pathTo(parent, f)})
+					default:
+						if why, ok := reviewedAssertionPanics[fnKey(f)]; ok {
+							obs = append(obs, Ob{Key: key, Site: c.Pos(p.Pos()), Verdict: OK, Note: "assertion panic, reviewed: " + why})
+						} else {
+							obs = append(obs, Ob{Key: key, Site: c.Pos(p.Pos()), Verdict: VIOLATION,
+								Note: "unreviewed explicit panic reachable from an entry point with no recover() on the path (handlers and workers do not recover: the process dies)", Path: pathTo(parent, f)})
+						}
 					}
 				}
 			}
 		}
 		c.Stats["explicit_panics"] = n
 		obs = append(obs, floor("PANIC/P2-explicit-panic-confined", "explicit panic sites", n, 2))
+		obs = append(obs, floor("PANIC/P2-explicit-panic-confined", "lexer call sites proven dead", nDead, 1))
 		return obs
 	},
 }
